@@ -106,6 +106,29 @@ def insertAgeId (t : Tbl) : List Tbl → List Tbl
 
 def tieById (l : List Tbl) : List Tbl := l.foldr insertAgeId []
 
+/-- a `Compact` call on the current level list: the real result is echoed and stored as pending, the model's own pick
+is computed under the observed oracle answers and cuts -/
+def directCompact (st : St) (hint : List String) : St × String :=
+  if st.pending.isSome then (st, "busy") else
+  match hint with
+  | o :: rest =>
+    let cur := natOr ((field "cur=" rest).getD "0")
+    let real : Option ChangeSet :=
+      match rest with
+      | "cs" :: lv :: _ =>
+        let rm := Driver.C07.parseIds ((field "rm=" rest).getD "-")
+        let addS := (field "add=" rest).getD "none"
+        let runs := if addS == "none" then [] else (addS.splitOn "|").map Driver.C07.parseRun
+        some { rm := rm, lvl := natOr (lv.drop 1).toString, add := runs }
+      | _ => none
+    let cuts := match real with | some c => c.add.map (·.length) | none => []
+    let orc := parseOracle o cuts
+    let (pcs, comp') := compact st.comp st.L orc
+    let st' := { st with comp := comp', predicted := showCS pcs comp'.minorLevel,
+                         pending := real.map (fun c => (c, st.L)) }
+    (st', o ++ " " ++ showCS real cur)
+  | _ => (st, "bad-hint")
+
 def stepDirect (st : St) (op hint : List String) : St × String :=
   match op with
   | "w" :: _ => (st, "ok")
@@ -119,25 +142,22 @@ def stepDirect (st : St) (op hint : List String) : St × String :=
     | _ => (st, "bad-hint")
   | ["tbl", l, r] => (addTbl st (natOr l) (Driver.C07.parseRun r), "ok")
   | ["flush", r] => (addTbl st 0 (Driver.C07.parseRun r), "ok")
-  | ["compact"] =>
+  | ["compact"] => directCompact st hint
+  | ["compactreadfail"] =>
+    -- `Compact` while reading any input table fails behind its first entry: if the pick has a table with two or more
+    -- entries the call must fail (error, no change set, level list unchanged, cursor as after the pick); otherwise no
+    -- fault is hit and this is an ordinary `Compact`
     if st.pending.isSome then (st, "busy") else
     match hint with
-    | o :: rest =>
-      let cur := natOr ((field "cur=" rest).getD "0")
-      let real : Option ChangeSet :=
-        match rest with
-        | "cs" :: lv :: _ =>
-          let rm := Driver.C07.parseIds ((field "rm=" rest).getD "-")
-          let addS := (field "add=" rest).getD "none"
-          let runs := if addS == "none" then [] else (addS.splitOn "|").map Driver.C07.parseRun
-          some { rm := rm, lvl := natOr (lv.drop 1).toString, add := runs }
-        | _ => none
-      let cuts := match real with | some c => c.add.map (·.length) | none => []
-      let orc := parseOracle o cuts
-      let (pcs, comp') := compact st.comp st.L orc
-      let st' := { st with comp := comp', predicted := showCS pcs comp'.minorLevel,
-                           pending := real.map (fun c => (c, st.L)) }
-      (st', o ++ " " ++ showCS real cur)
+    | o :: _ =>
+      let (pcs, comp') := compact st.comp st.L (parseOracle o [])
+      let hit : Bool := match pcs with
+        | some cs => (st.L.flatten.filter (fun t => cs.rm.contains t.id)).any (fun t => decide (t.run.length ≥ 2))
+        | none => false
+      if hit then
+        ({ st with comp := comp', predicted := "failed cur=" ++ toString comp'.minorLevel },
+         o ++ " readfault cur=" ++ toString comp'.minorLevel)
+      else directCompact st hint
     | _ => (st, "bad-hint")
   | ["compactfail"] =>
     if st.pending.isSome then (st, "busy") else
@@ -242,6 +262,16 @@ def dbCommit (st : DbSt) (lv : String) (rest : List String) : DbSt × String :=
     " cur=" ++ toString comp'.minorLevel
   (st', if realS == predS then lineReal else lineReal ++ " pick-mismatch model=" ++ predS)
 
+/-- the compaction task called `Compact` and holds a change set -/
+def dbBegin (st : DbSt) (rest : List String) : DbSt × String :=
+  let o := (field "o=" rest).getD ""
+  let (c07', out) := Driver.C07.step st.c07 ["bg", "c", "##", "compactbegin"]
+  -- the cursor after the real call is predicted without knowing where `WriteRun` cuts
+  let (pcs, comp') := compact st.comp st.c07.s.levels (parseOracle ("o=" ++ o) [])
+  let st' := { st with c07 := c07', begun := some ("o=" ++ o, st.c07.s.levels, st.comp) }
+  (st', if pcs.isSome then joinWith " " ([out, "o=" ++ o, "cur=" ++ toString comp'.minorLevel])
+        else out ++ " pick-mismatch model=none")
+
 def showIdLevels (L : Levels) : String :=
   joinWith "/" (L.map fun l => if l.isEmpty then "-" else joinWith "," (l.map fun t => toString t.id))
 
@@ -279,14 +309,27 @@ def stepDB (st : DbSt) (ws : List String) : DbSt × String :=
     if st.c07.s.flushing.isNone || st.begun.isNone then (st, "skip")
     else if st.c07.compactQ ≥ 4 then (st, "queue-full") else (st, "bad-hint")
   | ["bg", "c"], "compactidle" :: rest => dbIdle st rest
-  | ["bg", "c"], "compactbegin" :: rest =>
-    let o := (field "o=" rest).getD ""
-    let (c07', out) := Driver.C07.step st.c07 ["bg", "c", "##", "compactbegin"]
-    -- the cursor after the real call is predicted without knowing where `WriteRun` cuts
-    let (pcs, comp') := compact st.comp st.c07.s.levels (parseOracle ("o=" ++ o) [])
-    let st' := { st with c07 := c07', begun := some ("o=" ++ o, st.c07.s.levels, st.comp) }
-    (st', if pcs.isSome then joinWith " " ([out, "o=" ++ o, "cur=" ++ toString comp'.minorLevel])
-          else out ++ " pick-mismatch model=none")
+  | ["bg", "c"], "compactbegin" :: rest => dbBegin st rest
+  | ["bg", "crf"], hint =>
+    -- `Compact` of the compaction task while every table with two or more entries is unreadable behind its first
+    -- entry: with such a table in the pick the task must end with an error (nothing pending, level list unchanged)
+    if st.c07.compactQ == 0 then (st, "none")
+    else if st.begun.isSome then (st, "skip")
+    else
+      match hint with
+      | "compactidle" :: rest => dbIdle st rest
+      | "compactbegin" :: rest => dbBegin st rest
+      | "readfault" :: rest =>
+        let o := (field "o=" rest).getD ""
+        let (pcs, comp') := compact st.comp st.c07.s.levels (parseOracle ("o=" ++ o) [])
+        let hit : Bool := match pcs with
+          | some cs => (st.c07.s.levels.flatten.filter (fun t => cs.rm.contains t.id)).any (fun t => decide (t.run.length ≥ 2))
+          | none => false
+        if hit then
+          ({ st with comp := comp', c07 := { st.c07 with compactQ := st.c07.compactQ - 1 } },
+           "readfault o=" ++ o ++ " cur=" ++ toString comp'.minorLevel)
+        else (st, "no-fault-expected")
+      | _ => (st, "bad-hint")
   | ["bg", "c"], "compact" :: lv :: rest => dbCommit st lv rest
   | _, _ =>
     let (c07', out) := Driver.C07.step st.c07 ws
